@@ -240,7 +240,20 @@ SetName(s) ==
   /\ out' = [op |-> "setname"]
   /\ UNCHANGED <<nodes, disk>>
 
+(* A request addressed below a path that does not exist (never existed, was deleted, or exists only as a prefix):
+   StaleIsNoop - nothing changes, whatever the server answers (the implementation drops the requester's connection
+   for create and post: a nil-map panic recovered per connection; C03's business).  In particular no component of the
+   missing path may appear. *)
+Stale(s) ==
+  CASE s.op \in {"mkbundle", "mkcat"} -> ~Exists(s.path)
+    [] s.op = "post"    -> s.path \notin DOMAIN nodes
+    [] s.op = "delart"  -> ~Exists(ParentOf(s.path))
+    [] OTHER -> FALSE
+StaleNoop(s) == /\ out' = [op |-> "stale", req |-> s.op]
+                /\ UNCHANGED <<nodes, disk, uname>>
+
 Guard(s) ==
+  Stale(s) \/
   CASE s.op \in {"mkbundle", "mkcat"} -> Exists(s.path)
     [] s.op = "post"    -> s.path \in DOMAIN nodes /\ (s.parent = 0 \/ s.parent \in DOMAIN nodes[s.path].arts)
     [] s.op = "delart"  -> Exists(ParentOf(s.path))    \* (a missing parent item makes the store panic: C03's business)
@@ -250,6 +263,7 @@ Guard(s) ==
 
 (* the tree after the step, given that Guard(s) holds *)
 TreeAfter(s) ==
+  IF Stale(s) THEN nodes ELSE
   CASE s.op \in {"mkbundle", "mkcat"} -> CreateTree(s)
     [] s.op = "post"    -> PostTree(s)
     [] s.op = "delart"  -> DelArtTree(s)
@@ -258,6 +272,7 @@ TreeAfter(s) ==
     [] OTHER -> nodes
 
 Apply(s) ==
+  IF Stale(s) THEN StaleNoop(s) ELSE
   CASE s.op \in {"mkbundle", "mkcat"} -> Create(s)
     [] s.op = "post"    -> Post(s)
     [] s.op = "delart"  -> DeleteArticle(s)
@@ -334,6 +349,9 @@ ChildrenOfPath ==
         /\ {Append(p, it.name) : it \in CatView(p)} = Children(p)
         /\ Cardinality(CatView(p)) = Cardinality(Children(p))
         /\ \A it \in CatView(p) : it.kind = nodes[Append(p, it.name)].kind
+
+(* a request addressed below a missing path changes nothing *)
+StaleChangesNothing == [][out'.op = "stale" => nodes' = nodes /\ disk' = disk]_vars
 
 (* reloading the news file reproduces the same tree *)
 ReloadIsIdentity == disk = nodes
